@@ -125,6 +125,9 @@ def run(world, rep, tier, only=None):
         impls = prog.slots().get(("struct_io_manager", "flush"), set())
         rep.ob("C04.b", "struct_io_manager.flush:slot-resolution[%s]" % tag, "unix_flush" in impls,
                "flush slot resolves to %s" % sorted(impls))
+        # the manager that ends at a file descriptor: C17.b's durability obligation is imported
+        from rules import C17 as _c17
+        _c17.flush_durability(prog, rep, "C04.b", "[%s]" % tag)
         for wname, wfile in (("undo_flush", "lib/ext2fs/undo_io.c"), ("test_flush", "lib/ext2fs/test_io.c")):
             if wname not in impls:
                 continue
